@@ -22,24 +22,28 @@ use vh_common::runner;
 use vh_common::workers::Workers;
 
 // ---------------------------------------------------------------- recording sinks
-#[derive(Clone)]
 struct Sink {
     id: u64,
     log: Log,
     fail: bool, // the sink records what it is handed and then reports an I/O error
+    short: usize, // > 0: accepts at most that many bytes per write call (a pipe / socket like writer)
+    lock: Option<&'static std::sync::Mutex<()>>, // the writer holds this lock for as long as it lives (like `Mutex<W>: MakeWriter`)
 }
 struct SinkWriter {
     id: u64,
     log: Log,
     fail: bool,
+    short: usize,
+    _guard: Option<std::sync::MutexGuard<'static, ()>>,
 }
 impl io::Write for SinkWriter {
     fn write(&mut self, buf: &[u8]) -> io::Result<usize> {
-        self.log.lock().unwrap().push(json!({"w": self.id, "raw": String::from_utf8_lossy(buf), "th": vh_common::rec::vt()}));
+        let n = if self.short > 0 { buf.len().min(self.short) } else { buf.len() };
+        self.log.lock().unwrap().push(json!({"w": self.id, "raw": String::from_utf8_lossy(&buf[..n]), "th": vh_common::rec::vt()}));
         if self.fail {
             return Err(io::Error::new(io::ErrorKind::Other, "failing sink"));
         }
-        Ok(buf.len())
+        Ok(n)
     }
     fn flush(&mut self) -> io::Result<()> {
         Ok(())
@@ -49,11 +53,11 @@ impl<'a> MakeWriter<'a> for Sink {
     type Writer = SinkWriter;
     fn make_writer(&'a self) -> SinkWriter {
         self.log.lock().unwrap().push(json!({"mw_nometa": self.id}));
-        SinkWriter { id: self.id, log: self.log.clone(), fail: self.fail }
+        SinkWriter { id: self.id, log: self.log.clone(), fail: self.fail, short: self.short, _guard: self.lock.map(|m| m.lock().expect("sink lock poisoned")) }
     }
     fn make_writer_for(&'a self, m: &Metadata<'_>) -> SinkWriter {
         self.log.lock().unwrap().push(json!({"mw": self.id, "lvl": rank(m.level()), "tgt": m.target()}));
-        SinkWriter { id: self.id, log: self.log.clone(), fail: self.fail }
+        SinkWriter { id: self.id, log: self.log.clone(), fail: self.fail, short: self.short, _guard: self.lock.map(|m| m.lock().expect("sink lock poisoned")) }
     }
 }
 
@@ -272,7 +276,16 @@ fn lf(r: u64) -> tracing_core::LevelFilter {
 fn build(b: &Value, log: &Log) -> BoxL {
     let w = &b["writer"];
     let failing: Vec<u64> = w["failing"].as_array().map(|a| a.iter().map(|x| x.as_u64().unwrap()).collect()).unwrap_or_default();
-    let s = |id: u64| Sink { id, log: log.clone(), fail: failing.contains(&id) };
+    let short_id = w["short"]["id"].as_u64().unwrap_or(0);
+    let short_n = w["short"]["n"].as_u64().unwrap_or(0) as usize;
+    let locked: Vec<u64> = w["locked"].as_array().map(|a| a.iter().map(|x| x.as_u64().unwrap()).collect()).unwrap_or_default();
+    let s = |id: u64| Sink {
+        id,
+        log: log.clone(),
+        fail: failing.contains(&id),
+        short: if id == short_id { short_n } else { 0 },
+        lock: if locked.contains(&id) { Some(Box::leak(Box::new(std::sync::Mutex::new(())))) } else { None },
+    };
     let p = |k: &str| w["params"][k].as_u64().unwrap_or(3);
     let tg = w["params"]["t"].as_str().unwrap_or("a").to_string();
     let pred = move |m: &Metadata<'_>| m.target() == tg;
